@@ -267,6 +267,24 @@ CLAIMED["C16"] = dict(
          "property speaks of files, the model and the code agree on blocks.",
 )
 
+CLAIMED["C10"] = dict(
+    text="Theorems about the total functions the parser and encoder models call, one per rewrite rule with a value-level content: a number "
+         "rendered in any radix 2..16 is read back by Parse.intOf as the number, so octal/decimal/hex/binary spellings agree "
+         "(radix_roundtrip, radix_irrelevant); hex digits in either case have the same value (digitVal_upperC, intOf_upper); every table "
+         "lookup goes through lowerS and upper-casing a name does not change that key, so instruction, directive, register and builtin "
+         "lookups are case-blind (lowerC_upperC, lowerS_upperS, lowerS_idem, lookups_case_blind, lookups_upper); sp/pc are r6/r7 and "
+         "%N is rN in every register operand form (register_aliases, percent_is_register, percent_operands); '(rN)' and legacy '@rN' "
+         "give the same field, words and errors - only a warning differs (legacy_deferred); the implicit word list equals '.word' for "
+         "every non-empty list at every address (implicit_word_list); mnemonic synonyms: C01.synonyms_encode_equal. Tie: each rule "
+         "alone on a fixed program; generated programs x 4 variants (structured re-rendering + textual rules); the 21 practice "
+         "programs respelled; variants through the whole-program model, whose parser must read every spelling as the Python parser does.",
+    design_ref="DESIGN.md §5 C10",
+    technique="Lean 4 theorems (induction on digits, exhaustive case analysis on ASCII letters and register numbers, decide over the register table) + metamorphic respelling oracle on the implementation + whole-program model correspondence",
+    note=NOTE + "Whitespace, blank lines, comments and the three bracket spellings have no value-level content (they vanish in the syntax tree): "
+         "for them there is no theorem - the parser model is a partial definition - and the respelling oracle and the model "
+         "correspondence are what decides. Lines with string-like operands are only surrounded by new blank/comment lines, never edited.",
+)
+
 PENDING_REASON = "check not built yet (build in progress; see DESIGN.md §8 for the order)"
 
 
